@@ -64,6 +64,21 @@ def front_call(case, ro):
     npts = sum(max(0, np.asarray(s).shape[0] - W + 1) for s in series)
     beta = wd.make_beta(case["beta"], npts)
     lam = wd.make_lambda(case["lam"], N * W) if not case.get("bad_lambda_shape") else np.full((N * W + 1, N * W + 1), 0.1)
+    if case.get("nan_sample"):
+        # a missing sample: whatever the library does about it, it must not write into the caller's series
+        tgt = data[-1] if isinstance(data, list) else data
+        if tgt.dtype.kind == "f":
+            if not tgt.flags.writeable:
+                tgt = np.array(tgt)
+            else:
+                tgt = tgt.copy() if not tgt.flags.owndata else tgt
+            tgt[min(2, tgt.shape[0] - 1), 0] = np.nan
+            if isinstance(data, list):
+                data[-1] = tgt
+            else:
+                data = tgt
+    if case.get("negative_lambda_entry") and isinstance(lam, np.ndarray) and lam.flags.writeable:
+        lam[0, -1] = lam[-1, 0] = -0.05
     if case.get("oned") and isinstance(data, np.ndarray):
         data = np.array(data[:, 0], copy=True)          # a univariate series given as a 1-D array
     if ro:
@@ -122,7 +137,7 @@ def run_front(spec, res):
             case["lam"] = dict(form=["matrix_const", "matrix_rand", "matrix_const_be"][int(rng.integers(0, 3))], value=0.3, seed=int(rng.integers(0, 999)))
         if rng.random() < 0.6:
             case["beta"] = dict(form=["vector_const", "vector_rand"][int(rng.integers(0, 2))], value=5.0, seed=int(rng.integers(0, 999)))
-        fail = [None, None, "task", "bad_lambda_shape", "short", "swap", "oned"][int(rng.integers(0, 7))]
+        fail = [None, None, "task", "bad_lambda_shape", "short", "swap", "oned", "nan_sample", "negative_lambda_entry"][int(rng.integers(0, 9))]
         if fail == "task":
             case["task_plan"] = {str(int(rng.integers(0, case["K"]))): {"raise_": ("ValueError", "injected")}}
         elif fail == "bad_lambda_shape":
@@ -136,6 +151,11 @@ def run_front(spec, res):
             case["swap"] = True
         elif fail == "oned" and not joint:
             case["oned"] = True
+        elif fail == "nan_sample":
+            case["nan_sample"] = True
+        elif fail == "negative_lambda_entry":
+            case["lam"] = dict(form="matrix_rand", value=0.3, seed=int(rng.integers(0, 999)))
+            case["negative_lambda_entry"] = True
         case["what"] = "front"
         case["fail"] = fail
         check_front(res, case)
